@@ -401,7 +401,7 @@ def _glyf_ufo(
         )
 
         for root in color_glyph.painted_layers:
-            for context in root.breadth_first():
+            for context in root.depth_first():  # z-order
                 # For 'glyf' just dump anything that isn't a PaintGlyph
                 if not isinstance(context.paint, PaintGlyph):
                     continue
@@ -459,7 +459,7 @@ def _colr0_layers(color_glyph: ColorGlyph, root: Paint, palette: Sequence[Color]
     # Results for complex structures will be suboptimal :)
     ufo = color_glyph.ufo
     layers = []
-    for context in root.breadth_first():
+    for context in root.depth_first():  # z-order
         if context.paint.format != PaintGlyph.format:  # pytype: disable=attribute-error
             continue
         paint_glyph: PaintGlyph = (
